@@ -1936,3 +1936,49 @@ Proof.
     + apply in_rev_iff. exact Hp.
   - unfold eff_graph_seq. apply lookup_on; auto.
 Qed.
+
+(* ------------------------------------------------------------------------------------- *)
+(* K. one dispatcher object, several dispatches: an evaluation is a function of the arguments *)
+(*    of the LAST dispatch (and of the delegate the dispatcher was built with)                 *)
+(* ------------------------------------------------------------------------------------- *)
+Definition timer_or_forever (t : option (nat -> bool)) : nat -> bool :=
+  match t with Some tm => tm | None => forever_timer end.
+
+Lemma run_session_evaluations : forall par d pops st,
+  run_session par d st (map Evaluate pops) =
+  map (evaluate_fresh par (s_objective st) d (s_timer st)) pops.
+Proof.
+  induction pops as [|pop pops IH]; intros st; [reflexivity|].
+  cbn [map run_session evaluate_op]. rewrite IH. reflexivity.
+Qed.
+
+Fixpoint final_state (par : bool) (d : delegate) (st : dstate) (steps : list step) : dstate :=
+  match steps with
+  | [] => st
+  | Dispatch o t :: rest => final_state par d (dispatch_op st o t) rest
+  | Evaluate pop :: rest => final_state par d (snd (evaluate_op par d st pop)) rest
+  end.
+
+Lemma run_session_app : forall par d a b st,
+  run_session par d st (a ++ b) = run_session par d st a ++ run_session par d (final_state par d st a) b.
+Proof.
+  induction a as [|x a IH]; intros b st; [reflexivity|].
+  destruct x as [o t|pop]; cbn [app run_session final_state evaluate_op snd]; rewrite IH; reflexivity.
+Qed.
+
+(* whatever happened to the dispatcher before (earlier dispatches with other objectives and
+   timers - e.g. one that has expired -, earlier evaluations): after dispatch(o, t) every
+   evaluation answers exactly what a fresh dispatcher dispatched with (o, t) answers *)
+Theorem session_last_dispatch : forall par d st before o t pops,
+  run_session par d st (before ++ Dispatch o t :: map Evaluate pops) =
+  run_session par d st before ++ map (evaluate_fresh par o d (timer_or_forever t)) pops.
+Proof.
+  intros. rewrite run_session_app. f_equal.
+  cbn [run_session]. rewrite run_session_evaluations. reflexivity.
+Qed.
+
+(* in particular a dispatch without timer means no time limit, even after an expired one *)
+Theorem session_timer_reset : forall par d st o1 o2 pop1 pop2,
+  run_session par d st [Dispatch o1 (Some (fun _ => true)); Evaluate pop1; Dispatch o2 None; Evaluate pop2] =
+  [evaluate_fresh par o1 d (fun _ => true) pop1; evaluate_fresh par o2 d forever_timer pop2].
+Proof. reflexivity. Qed.
